@@ -668,7 +668,8 @@ func (r *runner) step(i int, st Step) {
 		go func() {
 			err := run()
 			c.err = err
-			r.log.Add("ReconfRet", "proc", proc, "gen", gen, "geni", geni, "rid", rid, "err", engine.ErrClass(err))
+			r.log.Add("ReconfRet", "proc", proc, "gen", gen, "geni", geni, "rid", rid, "err", engine.ErrClass(err),
+				"caller_deadline", ms > 0)
 			close(c.done)
 		}()
 		if st.N == 0 {
